@@ -72,6 +72,8 @@ def gen(rng, tier):
     share = rng.random() < 0.7
     return {'vars': vars_, 'n': n, 'data': data, 'signals': signals, 'mons': mons, 'schedule': tokens, 'share': share,
             'dup_boundary': rng.random() < 0.4,
+            # recorded signals that end with an explicit "holds forever" sample [inf, last value] (dense offline objects)
+            'inf_tail': [v for v in vars_ if rng.random() < 0.6] if rng.random() < 0.2 else [],
             'hashseeds': [1, 2, 31337] if rng.random() < 0.025 else []}
 
 
@@ -105,6 +107,10 @@ class Host(object):
         self.data, self.signals = data, signals
         self.dense = self.mo['kind'].startswith('ct')
         self.spec = M.build(_desc(sc, self.mo))
+        if self.dense and self.mo['mode'] == 'off' and sc.get('inf_tail'):
+            self.signals = dict((v, (signals[v] + [[float('inf'), signals[v][-1][1]]]) if v in sc['inf_tail'] else signals[v])
+                                for v in signals)
+            r.faults['signal_ends_with_inf_sample'] += 1
         self.step = 0
         self.outs = []
         self.r = r
@@ -261,6 +267,10 @@ def run(sc):
 
 def shrinks(sc):
     k = len(sc['mons'])
+    if sc.get('inf_tail'):
+        c = copy.deepcopy(sc)
+        c['inf_tail'] = []
+        yield c
     if k > 1:
         for j in range(k):
             c = copy.deepcopy(sc)
